@@ -166,4 +166,9 @@ def build(tier, repo):
     rc.norm_discipline(r6, w, "coneprog", "coneqp")
     rc.cone_product_rule(r6, w, "coneprog", "coneqp")
     r6.require(4)
+    from .. import solver_rules as sr5
+    r10 = chk.rule("C03-R10", "initvals: the supplied z is validated like the supplied s (mirror-image tests)",
+                   "'optimal' is never reported at a warm start whose z is outside the cone")
+    chk.note_analysed("start_validations", sr5.start_mirror_rule(r10, w, [("coneprog", "coneqp")]))
+    r10.require(1)
     return chk
